@@ -305,6 +305,64 @@ def r16_7(ctx: Ctx, rep: Report) -> None:
     rep.floor(6, "field objects rebuilt by Ace.line setter")
 
 
+def _stamps(f: Func) -> Dict[str, ast.AST]:
+    """key -> value for statements `<dict>["key"] = <value mentioning self>` in f."""
+    out: Dict[str, ast.AST] = {}
+    for n in own_nodes(f.node):
+        if isinstance(n, ast.Assign) and isinstance(n.targets[0], ast.Subscript) and isinstance(n.targets[0].slice, ast.Constant) and isinstance(n.targets[0].value, ast.Name):
+            if mentions(n.value, "self"):
+                out[str(n.targets[0].slice.value)] = n.value
+    return out
+
+
+def settings_propagation(ctx: Ctx, rep: Report, rid: str = "R16.9") -> None:
+    """Containers override, in the exported dict of a child they rebuild, only settings they export themselves,
+    and the sibling builders (dict -> ACE, dict -> group, line -> ACE) pass the same settings."""
+    rep.rule(rid)
+    sites = [
+        ("AceGroup.items.setter", ["AceGroup", "Acl"]),
+        ("Acl.items.setter", ["Acl"]),
+        ("AceGroup._dict_to_ace", ["AceGroup", "Acl"]),
+        ("AceGroup._dict_to_aceg", ["AceGroup", "Acl"]),
+        ("AddrGroup.items.setter", ["AddrGroup"]),
+        ("AddressBase._init_items", ["Address", "AddressAg"]),
+    ]
+    stamp_sets: Dict[str, Dict[str, ast.AST]] = {}
+    for q, classes in sites:
+        f = ctx.prog.find_func(q)
+        if f is None:
+            continue
+        st = _stamps(f)
+        stamp_sets[q] = st
+        for cn in classes:
+            ex = exported(ctx, ctx.cls(cn))
+            for k, v in sorted(st.items()):
+                rep.instance()
+                if k in ex:
+                    rep.ok(f"{q}: child['{k}'] = {snippet(v, 30)} ({cn})", f"{cn}.data() exports {k!r}: after a re-initialisation the container still holds the user's value", nontrivial=False, where=where(f, v))
+                else:
+                    rep.violation(q, f"child dict key {k!r} overridden with {snippet(v)}", f"{cn} forces {k!r} onto every child it rebuilds from a dict, but {cn}.data() does not export {k!r}: after copy()/re-initialisation the container holds the default and stamps it on the children (their own exported value is lost)", where(f, v), inp=f"{cn} whose members were created with a non-default {k}; g.copy()")
+    a, b = stamp_sets.get("AceGroup._dict_to_ace"), stamp_sets.get("AceGroup._dict_to_aceg")
+    if a is not None and b is not None:
+        rep.instance()
+        if set(a) == set(b):
+            rep.ok("AceGroup._dict_to_ace ≡ _dict_to_aceg", f"both stamp {sorted(a)}", where=where(ctx.func("AceGroup._dict_to_aceg")))
+        else:
+            miss = sorted(set(a) ^ set(b))
+            rep.violation("AceGroup._dict_to_aceg", f"stamps {sorted(b)} vs _dict_to_ace {sorted(a)}", f"a nested group rebuilt from its dict does not receive the container's {miss}: the names/numbers switch (or platform/type) set on a grouped ACL is lost or appears one operation late", where(ctx.func("AceGroup._dict_to_aceg")), inp="grouped ACL; acl.port_nr = True; text unchanged until the next copy()")
+        lt = ctx.func("AceGroup._line_to_ace")
+        passed: Set[str] = set()
+        for n in own_nodes(lt.node):
+            if isinstance(n, ast.Call) and src(n.func) == "Ace":
+                passed |= {k.arg for k in n.keywords if k.arg}
+        rep.instance()
+        if set(a) <= passed:
+            rep.ok("AceGroup._line_to_ace", f"an ACE built from a line receives {sorted(set(a))} as well", where=where(lt))
+        else:
+            rep.violation("AceGroup._line_to_ace", f"Ace(...) receives {sorted(passed)}", f"an ACE built from a line does not receive the container's {sorted(set(a) - passed)}", where(lt))
+    rep.floor(12, "settings stamped on rebuilt children")
+
+
 IN_PLACE = [
     "AceGroup.resequence", "AddrGroup.resequence", "Group.sort", "Group.reverse", "Group.insert", "Group.pop",
     "Acl.group", "Acl.ungroup", "AceGroup.ungroup_ports", "Acl.ungroup_ports",
@@ -337,6 +395,7 @@ def run(ctx: Ctx, rep: Report, tier: str) -> None:
     r19_3(ctx, rep, rid="R16.6")
     adoption_rule(ctx, rep, rid="R16.6")
     r16_8(ctx, rep)
+    settings_propagation(ctx, rep)
     r16_1(ctx, rep)
     r16_2(ctx, rep)
     r16_3(ctx, rep)
